@@ -128,18 +128,25 @@ theorem not_not_same_node {α : Type} {s s1 : Mgr} (hs : Inv s) {x n : Nid} (p :
   have hp := Prog.run_spec p s1 c1.2.1
   exact mkNot_of_not (content_stable hp.1 hp.2 (content?_mem c1.1))
 
+/-- a `Real(v)` call that returned: its node has the denoted content -/
+theorem mkReal_ret {s s' : Mgr} (hs : Inv s) {v : PyNum} {q : Rat} (hv : v.realValue = .ok q) {i : Nid}
+    (h : (mkReal v).run s = (.ok i, s')) : (realC q, i) ∈ s'.formulae ∧ Inv s' ∧ Ext s s' := by
+  rw [mkReal, prim_run] at h
+  simp only [Prim.exec] at h
+  have hsp := realConst_spec v s hs
+  rw [h] at hsp
+  obtain ⟨q', hq', hm⟩ := hsp.2 i rfl
+  rw [hv] at hq'; cases hq'
+  exact ⟨hm, hsp.1.inv, hsp.1.ext⟩
+
 /-- `ToReal(Int(n))` now and `Real(n)` later: the same node. -/
 theorem toReal_const_same_node {α : Type} {s s1 s3 : Mgr} (hs : Inv s) {f i j : Nid} {n : Int} (p : Prog α)
     (hf : (intC n, f) ∈ s.formulae) (h1 : (mkToReal f).run s = (.ok i, s1))
     (h2 : (mkReal (.int n)).run (p.run s1).2 = (.ok j, s3)) : i = j := by
   rw [mkToReal_int_const hs hf] at h1
-  obtain ⟨i', s1', hr1, hm1, hi1, _⟩ := mkReal_spec hs (v := .int n) (q := (n : Rat)) rfl
-  rw [hr1] at h1
-  cases h1
+  obtain ⟨hm1, hi1, _⟩ := mkReal_ret hs (v := .int n) (q := (n : Rat)) rfl h1
   have hp := Prog.run_spec p s1 hi1
-  obtain ⟨j', s3', hr2, hm2, hi3, he3⟩ := mkReal_spec hp.1 (v := .int n) (q := (n : Rat)) rfl
-  rw [hr2] at h2
-  cases h2
+  obtain ⟨hm2, hi3, he3⟩ := mkReal_ret hp.1 (v := .int n) (q := (n : Rat)) rfl h2
   exact hi3.tfun _ _ _ (he3.sub _ (hp.2.sub _ hm1)) hm2
 
 /-- `Div(x, c)` now and `Times(x, Real(1/c))` later, for a non-zero Real constant `c`: the
@@ -149,20 +156,30 @@ theorem div_times_same_node {α : Type} {s s1 s3 : Mgr} (hs : Inv s) {x r i j : 
     (h2 : ((mkReal (.frac (1 / q))).bind fun inv => mkTimes [x, inv]).run (p.run s1).2 = (.ok j, s3)) : i = j := by
   rw [mkDiv_real_const hs hr hq, Prog.run_bind] at h1
   rw [Prog.run_bind] at h2
-  obtain ⟨a, sa, hra, hma, hia, _⟩ := mkReal_spec hs (v := .frac (1 / q)) (q := 1 / q) rfl
-  rw [hra] at h1
-  simp only at h1
-  have h1' : (create ⟨NT.TIMES, [x, a], .none⟩).run sa = (.ok i, s1) := h1
-  have c1 := create_content hia h1'
-  have hp := Prog.run_spec p s1 c1.2.1
-  obtain ⟨b, sb, hrb, hmb, hib, heb⟩ := mkReal_spec hp.1 (v := .frac (1 / q)) (q := 1 / q) rfl
-  rw [hrb] at h2
-  simp only at h2
-  have hab : a = b := hib.tfun _ _ _ (heb.sub _ (hp.2.sub _ (c1.2.2.sub _ hma))) hmb
-  subst hab
-  have h2' : (create ⟨NT.TIMES, [x, a], .none⟩).run sb = (.ok j, s3) := h2
-  have c2 := create_content hib h2'
-  exact c2.2.1.tfun _ i j (c2.2.2.sub _ (heb.sub _ (hp.2.sub _ (content?_mem c1.1)))) (content?_mem c2.1)
+  cases hra : (mkReal (.frac (1 / q))).run s with
+  | mk ra sa =>
+    rw [hra] at h1
+    cases ra with
+    | error e => simp at h1
+    | ok a =>
+      simp only at h1
+      obtain ⟨hma, hia, _⟩ := mkReal_ret hs (v := .frac (1 / q)) (q := 1 / q) rfl hra
+      have h1' : (create ⟨NT.TIMES, [x, a], .none⟩).run sa = (.ok i, s1) := h1
+      have c1 := create_content hia h1'
+      have hp := Prog.run_spec p s1 c1.2.1
+      cases hrb : (mkReal (.frac (1 / q))).run (p.run s1).2 with
+      | mk rb sb =>
+        rw [hrb] at h2
+        cases rb with
+        | error e => simp at h2
+        | ok b =>
+          simp only at h2
+          obtain ⟨hmb, hib, heb⟩ := mkReal_ret hp.1 (v := .frac (1 / q)) (q := 1 / q) rfl hrb
+          have hab : a = b := hib.tfun _ _ _ (heb.sub _ (hp.2.sub _ (c1.2.2.sub _ hma))) hmb
+          subst hab
+          have h2' : (create ⟨NT.TIMES, [x, a], .none⟩).run sb = (.ok j, s3) := h2
+          have c2 := create_content hib h2'
+          exact c2.2.1.tfun _ i j (c2.2.2.sub _ (heb.sub _ (hp.2.sub _ (content?_mem c1.1)))) (content?_mem c2.1)
 
 /-! ## payload-decoding accessors report what the constructor was given -/
 
